@@ -245,7 +245,14 @@ def gen_cases(rng, tier):
             continue
           if pi == 7 and len(runs) > 1:
             continue
-          cases.append({'nodes': prog, 'callbacks': list(raising), 'runs': runs, 'src': 'family'})
+          cases.append({'nodes': prog, 'callbacks': list(raising), 'runs': runs, 'src': 'family', 'ticking': len(cases) % 2 == 0})
+  # runs that never get past their start trigger (it raises / stops / passes), under a clock that moves on between any
+  # two readings
+  for sraw in ('exc', 'stop', 'cont', 'failcont'):
+    for prog in (progs[0], progs[2]):
+      for cbs in ([], [False, True, False]):
+        cases.append({'nodes': prog, 'callbacks': cbs, 'runs': [{'overlap': False}, {'overlap': False}], 'src': 'start/' + sraw,
+                      'start': P(9, sraw), 'ticking': True})
   for i in range(150 if tier == 'quick' else 2000):
     r = rng.derive(i)
     g = ec.Gen(r, allow_timeout=False)
